@@ -196,6 +196,34 @@ pub fn check_crash_state(run: &Run, sc: &Scenario, fr: &FaultRun, replay: &Value
                 }
             };
             run.count("stitched_listings_compared", 1);
+            // the same holds for the part of the interrupted version below one directory: the
+            // rule decides per path, so a subtree listing is the filtered full listing
+            // (any path of this or an earlier version may be asked for, also one since deleted)
+            let mut dirs: std::collections::BTreeSet<&str> =
+                model.iter().map(|(_, e)| e.apath.as_str()).filter(|p| *p != "/").collect();
+            for s in sources.values() {
+                dirs.extend(s.keys().map(|p| p.as_str()).filter(|p| *p != "/"));
+            }
+            let dirs: Vec<&str> = dirs.into_iter().collect();
+            if !dirs.is_empty() {
+                let s = dirs[(fr.k * 7 + fr.torn as usize) % dirs.len()];
+                let l = cs::list(cs::local(&fr.arch), Some(new_id), s, &[]);
+                let want: Vec<&str> = model.iter().map(|(_, e)| e.apath.as_str()).filter(|p| tree::is_under(p, s)).collect();
+                match l.value() {
+                    Some(got) if l.panic.is_none() => {
+                        let got: Vec<&str> = got.iter().map(|e| e.apath.as_str()).collect();
+                        if got != want {
+                            viol("subtree-listing-vs-stitch-rule", "differs", format!("subtree {s:?}: listed {got:?} but the stitching rule gives {want:?}"));
+                            return false;
+                        }
+                        run.count("stitched_subtree_listings_compared", 1);
+                    }
+                    _ => {
+                        viol("subtree-listing-vs-stitch-rule", "failed", format!("subtree {s:?}: {}", l.describe()));
+                        return false;
+                    }
+                }
+            }
             if model.iter().any(|(b, _)| *b != new_id) && model.iter().any(|(b, _)| *b == new_id) {
                 run.count("stitched_listings_spanning_bands", 1);
             }
